@@ -76,7 +76,9 @@ def gen_one(rng):
         for sc in it.get("scenarios", []):
             sc["yields"] = rng.choice([0, 0, 1, 2, 3])
     # the after hook takes (virtual) time: it waits for a gate of its own, clock ticks may pass meanwhile
-    case["after_gated"] = bool(case.get("after_hook")) and rng.random() < 0.5
+    case["after_gated"] = bool(case.get("after_hook")) and rng.random() < 0.7
+    if case["after_gated"] and case.get("p_tick", 0) == 0:
+        case["p_tick"] = 30            # time must be able to pass while a hook waits
     # let real time pass now and then while the runner is quiescent (a hooked runner keeps no real-time timer)
     case["real_wait"] = rng.random() < 0.08
     # a user `which_scenario` classifier (classifying like the default one) installed last in the builder chain
